@@ -1,12 +1,17 @@
 """C06 - approximation guarantee: weight <= (2k-1) x optimum, exact for k = 1, k = 0 rejected."""
 from lib import engine
+from lib.core import tier
+from units import k17_spanner
 from . import common
 
-LEVEL = "exploration"
+LEVEL = "other"
 KINDS = {"approx-ratio", "approx-k1-not-exact", "approx-k0-accepted", "approx-k0-emitted", "approx-below-optimum",
          "approx-exception-type", "crash"}
 EXPLANATION = (
-    "Contract K18 continued: ret <= (2k-1)*OPT with OPT from the brute-force oracle (cross-checked against an "
+    "PROVED by CBMC (loop-free, every k): BaseApproxSpannerAlgorithm::run throws for k=0 before the exact phase or any "
+    "write to the output iterator, and accepts every k>=1 (K18c); the spanner loop hands is_bfs_reachable the hop bound 2k-1 "
+    "(K17a, callee precondition).  The quantitative guarantee itself is a global optimum argument no CBMC contract "
+    "expresses and is BOUNDED: Contract K18 continued: ret <= (2k-1)*OPT with OPT from the brute-force oracle (cross-checked against an "
     "independent Horton oracle), k=1 => ret = OPT, k=0 => std::runtime_error and no cycle emitted.  BOUNDED "
     "stand-in on the real sequential approximate entry points over the exact-domain set x k in {0,1,2,3,5,n}; "
     "the carrier contract K17 (spanner stretch and girth) is C15.  No deductive content (templates outside "
@@ -14,6 +19,7 @@ EXPLANATION = (
 
 
 def run(rep):
+    engine.run_units(rep, [u for u in k17_spanner.units(tier()) if u.get("unit", "").startswith(("K18c", "K17a"))])
     common.native_filtered(rep, "e3_approx", KINDS, args=["--only", "approx"],
                            functions={"approx_mcb_sva_signed": "bounded", "approx_mcb_sva_fvs_trees": "bounded",
                                       "approx_mcb_sva_iso_trees": "bounded"},
